@@ -81,6 +81,14 @@ def r1_field_agreement(r, facts):
             if v[0] == 'const' or (v[0] == 'cast' and v[4][0] == 'const') or v[0] == 'repeat':
                 continue  # family constant / zero padding
             wf[fld] = (accessor_of(v), conv_of(v))
+            # unconditional: a value chosen on a condition (`if link_local { scope_id } else { 0 }`) drops the
+            # component for part of the address space although the reader decodes it for all of it
+            core = v
+            while core[0] == 'cast':
+                core = core[4]
+            if core[0] == 'phi':
+                bad_alts = [a for a in core[1] if not accessor_of(a)]
+                r.require(not bad_alts, '%s/%s/conditional' % (ty, fld), 'field %s is written from the address only on some paths (other paths store %s): for those addresses the component does not survive the round trip' % (fld, ', '.join(str(a)[:40] for a in bad_alts)), w.where())
         r.inst('%s writes %s' % (ty, {k: v for k, v in wf.items()}), w.where())
         # family constant
         fam_fld = [k for k in written if k.endswith('family')]
